@@ -25,6 +25,8 @@ def handle : Handler
           | "serialize" => serializeBody S d
           | "_serialize" => serializeFieldLines S d
           | "size" => sizeBody S d
+          | "deserialize" => deserializeBody S ty d
+          | "_deserialize" => deserializeBody S ty d
           | _ => []
         some (Driver.strOut ("\n".intercalate lines))
       | _ => some "not-a-struct"
